@@ -115,6 +115,7 @@ type Crash struct {
 	Cut       map[int]int `json:"cut,omitempty"`       // power loss: journal index -> bytes kept of that data entry
 	Power     bool        `json:"power,omitempty"`     // power loss (else process crash)
 	Pos2      int         `json:"pos2,omitempty"`      // second-level crash position inside the recovery (0 = none); stored +1
+	OtherCfg  bool        `json:"othercfg,omitempty"`  // the image is reopened under another reader configuration
 	ClockBack bool        `json:"clockback,omitempty"` // the wall clock was stepped back to the start of the operation in flight
 }
 
